@@ -7,6 +7,7 @@ import (
 	"go/types"
 	"golang.org/x/tools/go/cfg"
 	"os"
+	"sort"
 	"strings"
 
 	"golang.org/x/tools/go/ssa"
@@ -229,6 +230,9 @@ func checkC02(p *Prog, r *Report) {
 	r.rule("C02.A7", "no blocking operation (channel operation outside a select with default, Sleep, WaitN, WaitGroup.Wait, socket I/O) is reachable while UDPSession.mu is held; exemptions: the user callback of Control and the socket-option setters", 2)
 	r.rule("C02.A7b", "every function that acquires a mutex releases it on every return path or defers the release", 1)
 	r.rule("C02.A10", "data that became readable is announced to a blocked reader, also when it was recovered by FEC: after the last change of the core in kcpInput the availability is tested and the token posted (= C13.W5b)", 2)
+	r.rule("C02.A14", "a header-only datagram is a valid datagram (a lone ACK, a window probe, its answer): every length refusal on the receive path of sessions and listener is a strict `len(data) < H` with H one of the header sizes the code is about to read (sums of the named header constants) — `<=` drops exactly the acknowledgements that travel alone, and the sender's backlog never drains", 4)
+	r.rule("C02.A15", "a message becomes readable as soon as its last fragment is queued: PeekSize refuses exactly while rcv_queue.Len() < frg+1 of the head segment — one more makes the last message of a burst wait for a segment that never comes", 1)
+	r.rule("C02.A16", "retransmission never gives up on its own: the timeout arm of flush is governed by the timer test alone (no retry cap, no state test) — segments dropped from retransmission while the session stays open are never delivered", 1)
 	r.rule("C02.A13", "no deadlock by lock order (= C13.W12): a session whose mutex is part of a lock cycle stops delivering for good", 1)
 	r.rule("C02.A12", "no empty message enters the send queue (= C01.S16): behind a zero-length message the peer's reader never makes progress", 1)
 	r.rule("C02.A11", "room made by the reader is used: after Recv has taken segments from the delivery queue every path to its return runs the loop that promotes parked segments from rcv_buf", 1)
@@ -238,6 +242,9 @@ func checkC02(p *Prog, r *Report) {
 	checkPromotionInRecv(p, r, "C02.A11")
 	checkEmptySendRefused(p, r, "C02.A12")
 	checkLockOrder(p, r, "C02.A13")
+	checkLengthRefusalsExact(p, r, "C02.A14")
+	checkPeekSizeReadiness(p, r, "C02.A15")
+	checkTimeoutArmUnconditional(p, r, "C02.A16")
 	{
 		sub := newReport("C12", r.Tier)
 		sub.curCfg = r.curCfg
@@ -744,5 +751,205 @@ func checkPromotionInRecv(p *Prog, r *Report, rule string) {
 		} else {
 			r.ok(rule, recvF.Name, p.Pos(recvF.Node), "promotion of parked segments in Recv", "every path from the last Pop to the return runs the rcv_buf -> rcv_queue loop")
 		}
+	}
+}
+
+// checkLengthRefusalsExact: C02.A14.
+func checkLengthRefusalsExact(p *Prog, r *Report, rule string) {
+	c := func(n string) int64 { return p.ConstInt(n) }
+	allowed := map[int64]string{}
+	add := func(v int64, name string) {
+		if _, ok := allowed[v]; !ok {
+			allowed[v] = name
+		}
+	}
+	add(c("IKCP_OVERHEAD"), "IKCP_OVERHEAD")
+	add(c("fecHeaderSize"), "fecHeaderSize")
+	add(c("fecHeaderSizePlus2"), "fecHeaderSizePlus2")
+	add(c("fecHeaderSizePlus2")+c("IKCP_OVERHEAD"), "fecHeaderSizePlus2+IKCP_OVERHEAD")
+	add(c("fecHeaderSizePlus2")+c("convSize"), "fecHeaderSizePlus2+convSize")
+	add(c("cryptHeaderSize"), "cryptHeaderSize")
+	add(c("cryptHeaderSize")+c("IKCP_OVERHEAD"), "cryptHeaderSize+IKCP_OVERHEAD")
+	add(2, "the 2-byte size prefix")
+	n := 0
+	for _, name := range []string{"(*UDPSession).packetInput", "(*UDPSession).kcpInput", "(*Listener).packetInput", "(*KCP).Input", "(*fecDecoder).decode"} {
+		fi := p.FuncByName(name)
+		if fi == nil {
+			continue
+		}
+		var fns []*FuncInfo
+		fns = append(fns, fi)
+		// helpers split off these functions (decryptPacket, openPacket, recoveredPayload)
+		inspectBody(fi, func(x ast.Node) bool {
+			if call, ok := x.(*ast.CallExpr); ok {
+				if f := p.Callee(call); f != nil && f.Pkg() == p.Types && !f.Exported() {
+					if h := p.FuncOf(f); h != nil && h.Body != nil {
+						if cl, _, okS := p.singleCaller(h); okS && rootFuncInfo(cl) == fi {
+							fns = append(fns, h)
+						}
+					}
+				}
+			}
+			return true
+		})
+		for _, g := range fns {
+			cg := p.CFG(g)
+			for _, b := range cg.live {
+				ct := cg.CondTerm(b)
+				if ct == nil || len(b.Succs) != 2 {
+					continue
+				}
+				for _, a := range append(Conjuncts(ct), Conjuncts(Negate(ct))...) {
+					a = stripConvs(a)
+					if len(a.Args) != 2 {
+						continue
+					}
+					x, y, op := a.Args[0], a.Args[1], a.Op
+					if x.IsConst() && !y.IsConst() {
+						x, y = y, x
+						op = map[string]string{"<": ">", "<=": ">=", ">": "<", ">=": "<=", "==": "==", "!=": "!="}[op]
+					}
+					if x.Op != "len" || !y.IsConst() || x.Args[0].Op != "var" {
+						continue
+					}
+					if v, ok := x.Args[0].Obj.(*types.Var); !ok || !isByteSliceLike(v.Type()) {
+						continue
+					}
+					// the refusing form: len(data) < K or len(data) <= K
+					var need int64
+					switch op {
+					case "<":
+						need = y.Int
+					case "<=":
+						need = y.Int + 1
+					default:
+						continue
+					}
+					// only the side of the branch that holds this atom positively counts once
+					if a.Key() != stripConvs(ct).Key() && !containsAtom(Conjuncts(ct), a) {
+						continue
+					}
+					n++
+					nm, ok := allowed[need]
+					construct := "length refusal " + pretty(a.Key()) + " in " + g.Name
+					if ok {
+						r.ok(rule, g.Name, p.Pos(b.Nodes[len(b.Nodes)-1]), construct, "refuses exactly what is shorter than "+nm)
+					} else {
+						r.bad(rule, g.Name, p.Pos(b.Nodes[len(b.Nodes)-1]), construct, fmt.Sprintf("datagrams shorter than %d bytes are refused, but %d is not the size of any header read here (the named sizes are %v): a datagram that consists of headers only — a lone ACK, a window probe or the answer to one — is dropped, the sender never sees the acknowledgement (or the re-opened window) and its backlog never drains", need, need, sortedNames(allowed)), "")
+					}
+				}
+			}
+		}
+	}
+	if n == 0 {
+		r.bad(rule, "receive path", "-", "length refusals", "no length test found on the receive path", "")
+	}
+}
+
+func containsAtom(as []*Term, a *Term) bool {
+	for _, x := range as {
+		if stripConvs(x).Key() == a.Key() {
+			return true
+		}
+	}
+	return false
+}
+
+func sortedNames(m map[int64]string) []string {
+	var ks []int64
+	for k := range m {
+		ks = append(ks, k)
+	}
+	sort.Slice(ks, func(i, j int) bool { return ks[i] < ks[j] })
+	var out []string
+	for _, k := range ks {
+		out = append(out, fmt.Sprintf("%s=%d", m[k], k))
+	}
+	return out
+}
+
+// checkPeekSizeReadiness: C02.A15.
+func checkPeekSizeReadiness(p *Prog, r *Report, rule string) {
+	fi := p.FuncOf(p.Method("KCP", "PeekSize"))
+	c := p.CFG(fi)
+	self := tVar(p.selfVar(fi))
+	qLen := normTerm(tCall(p.Method("RingBuffer", "Len"), p.F(self, "KCP", "rcv_queue")))
+	fFrg := p.Field("segment", "frg")
+	n := 0
+	for _, b := range c.live {
+		ct := c.CondTerm(b)
+		if ct == nil || len(b.Succs) != 2 {
+			continue
+		}
+		for _, a0 := range Conjuncts(ct) {
+			a := stripConvs(p.resolveSingleDefs(fi, a0))
+			if !a.Contains(qLen) || !termHasField(a, fFrg) {
+				continue
+			}
+			n++
+			l, ok := leZero(a)
+			good := false
+			if len(Conjuncts(ct)) != 1 {
+				ok = false // the refusal must not depend on anything else (a full queue, a mode): an incomplete message is never readable
+			}
+			if ok {
+				// Len - frg <= 0  (Len < frg + 1)
+				if l.C == 0 && l.Coef[qLen.Key()] == 1 && nonZeroCoefs(l) == 2 {
+					for k, cf := range l.Coef {
+						if k != qLen.Key() && cf == -1 && l.Atoms[k] != nil && l.Atoms[k].Op == "fld" && l.Atoms[k].Obj == fFrg {
+							good = true
+						}
+					}
+				}
+			}
+			// the true edge refuses
+			refuses := false
+			for _, nd := range b.Succs[0].Nodes {
+				if rs, isR := nd.(*ast.ReturnStmt); isR && len(rs.Results) == 1 {
+					if v, okV := p.constVal(rs.Results[0]); okV && v < 0 {
+						refuses = true
+					}
+				}
+			}
+			r.check(good && refuses, rule, fi.Name, p.Pos(b.Nodes[len(b.Nodes)-1]), "fragment completeness test "+pretty(a.Key()), "refuses exactly while Len() < frg + 1", "PeekSize does not report a message as readable exactly when Len() >= frg+1 of the head segment: with a stricter test the last multi-fragment message of a burst (already acknowledged, so nothing follows it) stays in the delivery queue for good; with a weaker one Recv copies an incomplete message")
+		}
+	}
+	if n == 0 {
+		r.bad(rule, fi.Name, p.Pos(fi.Node), "fragment completeness test", "PeekSize does not compare the queue length with the head segment's fragment count", "")
+	}
+}
+
+// checkTimeoutArmUnconditional: C02.A16.
+func checkTimeoutArmUnconditional(p *Prog, r *Report, rule string) {
+	flush := p.FuncOf(p.Method("KCP", "flush"))
+	fRes := p.Field("segment", "resendts")
+	c := p.CFG(flush)
+	n := 0
+	// the arm (if / else-if / case of a tagless switch) whose condition tests the resend timestamp and whose body decides to send
+	for _, b := range c.live {
+		ct := c.CondTerm(b)
+		if ct == nil || len(b.Succs) != 2 || !termHasField(ct, fRes) {
+			continue
+		}
+		sets := false
+		for _, nd := range b.Succs[0].Nodes {
+			if as, isA := nd.(*ast.AssignStmt); isA && len(as.Rhs) == 1 && p.Term(as.Rhs[0]).Op == "true" {
+				sets = true
+			}
+		}
+		if !sets {
+			continue
+		}
+		n++
+		var extra []string
+		for _, a := range Conjuncts(p.resolveSingleDefs(flush, ct)) {
+			if !termHasField(a, fRes) {
+				extra = append(extra, pretty(a.Key()))
+			}
+		}
+		r.check(len(extra) == 0, rule, flush.Name, p.Pos(b.Nodes[len(b.Nodes)-1]), "timeout arm of flush", "governed by _itimediff(current, resendts) >= 0 alone", fmt.Sprintf("the timeout retransmission additionally requires %v: once that stops holding the segment is never sent again although the session stays open (nothing looks at the dead-link state) — after a long stall, or on a bad path, data that was accepted is silently abandoned and the transfer hangs", extra))
+	}
+	if n == 0 {
+		r.bad(rule, flush.Name, p.Pos(flush.Node), "timeout arm of flush", "flush has no retransmission on timeout", "")
 	}
 }
